@@ -94,14 +94,15 @@ pub fn bounds_for(tier: Tier, mode: Mode) -> Bounds {
             max_depth: 12,
             k1_pos_cap: 16 * 1024,
             k1_seed_cap: usize::MAX,
-            k2_len: 128,
-            k2_seeds_per_type: 2,
+            k2_len: 256,
+            k2_seeds_per_type: 1,
             zero_len: 160,
             purity_every_case: true,
             deadline_s: 1700.0,
             chunk: 256,
         },
     };
+    crate::space::ODD_U16.store(tier == Tier::Thorough, Ordering::Relaxed);
     if mode == Mode::C20 {
         // the strict profile is 2-3x slower: halve the quick position cap
         b.deadline_s = tier.pick(45.0, 1700.0);
@@ -204,6 +205,25 @@ pub fn make_plan(tier: Tier, mode: Mode, cfg: &EngineConfig, seeds: Vec<Seed>, s
             }
         }
     }
+    // order by value: corpus tables / files before static blobs before zero buffers, and within a class the
+    // leading chunk (headers, counts, offsets) of every seed before any second chunk — so that a deadline
+    // under load cuts the least valuable units
+    // (thorough: table positions >= 2048 come last, after the cheap static / zero / k=2 classes, so that every
+    // class is completed before the long tail of large tables)
+    let rank = |u: &Unit| -> (u8, usize, usize) {
+        let lo = match u.kind {
+            UnitKind::K1 { lo, .. } => lo,
+            _ => 0,
+        };
+        let c = match seeds[u.seed].class {
+            "table" | "file" if lo < 2048 => 0u8,
+            "table" | "file" => 4,
+            "static" => 1,
+            _ => 2,
+        };
+        (c, lo, u.seed)
+    };
+    units.sort_by_key(rank);
     if n_pos_capped > 0 {
         caps.push(format!(
             "k=1: {} seeds longer than {} bytes were deviated only at positions < {}",
@@ -239,6 +259,17 @@ pub fn make_plan(tier: Tier, mode: Mode, cfg: &EngineConfig, seeds: Vec<Seed>, s
             }
         }
     }
+    // k=2 units (rank 3) go before the rank-4 tail
+    units.sort_by_key(|u| match u.kind {
+        UnitKind::K2 { .. } => 3u8,
+        UnitKind::Zero => 2,
+        UnitKind::K1 { lo, .. } => match seeds[u.seed].class {
+            "table" | "file" if lo < 2048 => 0,
+            "table" | "file" => 4,
+            "static" => 1,
+            _ => 2,
+        },
+    });
     if k2_dropped > 0 {
         caps.push(format!(
             "k=2: only the {} shortest seed(s) <= {} bytes of each target type get all pairs ({} further short seeds k=1 only)",
@@ -627,7 +658,7 @@ pub fn worker_main(cfg: EngineConfig) -> ! {
                             let fresh = unit_seen.insert(o.class);
                             // thorough: every k=1 case of table/file/static seeds; otherwise the first case of
                             // each new outcome class within the unit
-                            let every = b.purity_every_case && seed.class != "zero" && matches!(unit.kind, UnitKind::K1 { .. });
+                            let every = b.purity_every_case && seed.class != "zero" && matches!(unit.kind, UnitKind::K1 { lo, .. } if lo < 4096);
                             if cfg.mode == Mode::C01 && (every || fresh) {
                                 purity_n += 1;
                                 if let Some((k, id, what)) = purity(unit.seed, seed, &buf, o.digest, &cfg, &b, &helper) {
@@ -1006,6 +1037,15 @@ fn supervise(plan: &Plan, tier: Tier, b: &Bounds, explicit: Option<Vec<String>>,
                         local.restarts += 1;
                         eprintln!("[supervisor] worker {wi} ended with `{kind}` at unit {ui} case {pc} (progress unit {pu}); restart #{}", local.restarts);
                         let in_flight_ok = explicit.is_some() || pu == ui as u64 + 1;
+                        if !in_flight_ok && was_killed && local.restarts < 50 {
+                            // the watchdog's kill raced with the end of a unit (possible only when the machine
+                            // is so overloaded that a worker stalls for a whole watchdog period): nothing was in
+                            // flight, so simply run the unit again from its start
+                            eprintln!("[supervisor] watchdog kill of worker {wi} raced with a unit boundary; re-running unit {ui}");
+                            local.unconfirmed += 1;
+                            pending = Some((ui, 0));
+                            continue 'outer;
+                        }
                         if !in_flight_ok {
                             local.machinery = Some(format!(
                                 "worker {wi} died ({kind}) outside a case (progress unit {pu}, expected {})",
@@ -1217,6 +1257,17 @@ pub fn engine_body(run: &Run, replay: Option<&Value>, cfg: &EngineConfig) {
     };
     let plan = make_plan(tier, cfg.mode, cfg, seeds, stats);
 
+    if let Ok(uc) = std::env::var("C01_CASE") {
+        // development aid: print the replay case of "<unit>:<case>" and stop
+        if let Some((u, c)) = uc.split_once(':') {
+            if let (Ok(u), Ok(c)) = (u.parse::<usize>(), c.parse::<u64>()) {
+                if let Some((bl, dev)) = case_of(&plan, u, c) {
+                    println!("{}", json!({"case": replay_json(&plan, plan.units[u].seed, bl, &dev)}));
+                }
+            }
+        }
+        return;
+    }
     if let Some(case) = replay {
         let name = case["seed"].as_str().unwrap_or("");
         let Some(si) = plan.seeds.iter().position(|s| s.name == name) else {
@@ -1266,10 +1317,10 @@ pub fn engine_body(run: &Run, replay: Option<&Value>, cfg: &EngineConfig) {
     run.bound("k2_seeds_per_target", json!(b.k2_seeds_per_type));
     run.bound("zero_buffer_lengths", json!(format!("0..={}", b.zero_len)));
     run.bound("byte_alphabet", json!(["00", "01", "02", "7F", "80", "FF"]));
-    run.bound("u16_alphabet", json!("0,1,0x7FFF,0x8000,0xFFFF,n-2,n-1,n,n+1,pos,pos+1,pos+2 at every even position"));
+    run.bound("u16_alphabet", json!(format!("0,1,0x7FFF,0x8000,0xFFFF,n-2,n-1,n,n+1,pos,pos+1,pos+2 at every {} position", if tier == Tier::Thorough { "(even and odd)" } else { "even" })));
     run.bound("u32_alphabet", json!("n-1,n,n+1,0x7FFFFFFF,0x80000000,0xFFFFFFFF at every even position"));
     run.bound("extensions", json!("{1,2,4} bytes of 00 / FF"));
-    run.bound("purity", json!(if b.purity_every_case { "every k=1 case of table/file/static seeds; k=2 and zero seeds: first case of each work unit producing each new outcome class" } else { "first case of each work unit producing each new outcome class (read ok?, root field count, log2(accessor calls), error count)" }));
+    run.bound("purity", json!(if b.purity_every_case { "every k=1 case at positions < 4096 of table/file/static seeds; other cases: first case of each work unit producing each new outcome class" } else { "first case of each work unit producing each new outcome class (read ok?, root field count, log2(accessor calls), error count)" }));
     let mut n_by_class: BTreeMap<&str, u64> = BTreeMap::new();
     for s in &plan.seeds {
         *n_by_class.entry(s.class).or_insert(0) += 1;
@@ -1362,17 +1413,16 @@ pub fn engine_body(run: &Run, replay: Option<&Value>, cfg: &EngineConfig) {
 
 /// hand-written helpers that no driver exercises yet (listed in the evidence)
 pub const NOT_COVERED: &[&str] = &[
-    "aat::{Lookup*, StateTable, ExtendedStateTable}::{value,class,entry} (no corpus table uses them; types reached by the zero/static seeds through the walker only)",
-    "gvar::Gvar::phantom_point_deltas and TupleVariation::accumulate_{dense,sparse}_deltas (need glyf+loca+gvar jointly; exercised by C02's skrifa drivers)",
-    "glyf::Glyph read via TableProvider for composite recursion (skrifa side, C02)",
+    "aat::{Lookup*, StateTable, ExtendedStateTable}: blob-level only (zero/static seeds); no corpus table and no top-level reader in read-fonts uses them except ankr",
+    "TupleVariation::accumulate_{dense,sparse}_deltas: first 8 tuples of the first 48 glyphs, Fixed coordinates only (the F26Dot6/i32/f32 PointCoord instantiations are exercised by C02's skrifa drivers)",
     "postscript charstring evaluation beyond the first 96 charstrings of a table and with only the first private dict's local subrs",
-    "bitmap::BitmapData metrics decoding beyond location lookup + data() shape",
-    "varc::VarcComponent fields (no public accessors), MultiItemVariationStore delta application",
-    "ift: PatchMapFormat2 entry iteration (lives in incremental-font-transfer, C18/C19)",
-    "layout: Device::iter, FeatureParams variants, ConditionSet evaluation, Gpos anchors beyond cursive, mark arrays",
-    "os2/head/hhea/maxp/gasp/vorg/cpal/base: generated getters only (walker)",
+    "varc::VarcComponent fields (no public accessors), MultiItemVariationStore delta application (no public API)",
+    "ift: PatchMapFormat2 entry iteration and EntryData decoding live in incremental-font-transfer (C02 ift driver / C18 / C19)",
+    "layout: at most 48 lookups x 4-6 subtables x 24 records per array are visited by the typed drivers (the generic walker visits all up to its horizon)",
+    "os2/head/hhea/maxp/gasp/vorg/cpal/base/stat/meta: generated getters only (walker) apart from the listed helpers",
+    "corpus tags without any reader in read-fonts (fed to FontRef::table_data only): DSIG, fpgm, prep, VDMX, FFTM, LTSH, kern",
     "collections::IntSet / sparse bit set (C14)",
-    "X2-compiled seeds (write-fonts values) are not part of the seed list",
+    "X2-compiled seeds (write-fonts values) are not part of the seed list; k=3 on zero seeds is not enumerated",
 ];
 
 /// Entry point for both binaries: dispatches to the worker loop when re-executed as a worker.
